@@ -14,7 +14,7 @@ SUSP_SLOTS = asyncctl.TRANSITION_SLOTS + ['finalize_event']
 # generator
 # -------------------------------------------------------------------------------------------------
 
-def gen_event_script(rng, case, tag, depth, next_tag, allow_nested=True):
+def gen_event_script(rng, case, tag, depth, next_tag, allow_nested=True, late_ok=False):
     """fill case['script'] for event `tag`; may allocate nested triggers"""
     sc = case['script']
     slots = SUSP_SLOTS + (['on_exception'] if case['on_exc'] else [])
@@ -25,7 +25,7 @@ def gen_event_script(rng, case, tag, depth, next_tag, allow_nested=True):
     if rng.random() < 0.12:
         sc.setdefault('%d:conditions:2' % tag, []).append(['ret', 0])
     special = rng.random()
-    if special < 0.2:
+    if special < (0.3 if case['queued'] == 2 else 0.2):
         slot = rng.choice(slots)
         sc.setdefault('%d:%s:2' % (tag, slot), []).append(['raise', tag])
     elif special < 0.45 and allow_nested and depth < 2:
@@ -34,16 +34,16 @@ def gen_event_script(rng, case, tag, depth, next_tag, allow_nested=True):
         if not any(op[0] == 'ret' for op in sc.get(key, [])):
             nt = next_tag[0]
             next_tag[0] += 1
-            mi = rng.randrange(case['n_models'])
+            mi = rng.randrange(case['n_models'] - (0 if late_ok else len(case.get('late', []))))
             sc.setdefault(key, []).append(['trig', mi, rng.choice(['go', 'go', 'stay']), nt])
             # gather lets the event go on as soon as ONE child of the stage ends cancelled: a suspended sibling
             # would let the event overtake its own nested call (not covered by the statement) — none here
             sc.pop('%d:%s:1' % (tag, slot), None)
-            gen_event_script(rng, case, nt, depth + 1, next_tag)
+            gen_event_script(rng, case, nt, depth + 1, next_tag, late_ok=late_ok)
     if case['queued'] != 2 and case['n_models'] > 1 and rng.random() < 0.1:
         slot = rng.choice(asyncctl.TRANSITION_SLOTS)
         if slot != 'conditions':
-            sc.setdefault('%d:%s:0' % (tag, slot), []).append(['remove', rng.randrange(case['n_models'])])
+            sc.setdefault('%d:%s:0' % (tag, slot), []).append(['remove', rng.randrange(case['n_models'] - len(case.get('late', [])))])
     # the `ret` of a condition must stay the last op before a raise/trig is not required; keep order as built
 
 
@@ -51,16 +51,36 @@ def gen_case(rng, big=False, force=None):
     case = {'hsm': rng.random() < 0.3, 'queued': rng.choice([0, 0, 0, 1, 2]), 'on_exc': rng.random() < 0.25,
             'ignore': False, 'n_models': rng.choice([1, 1, 2, 2, 3] if big else [1, 1, 2, 2]), 'protected': [],
             'triggers': [], 'script': {}, 'schedule': []}
+    if case['queued'] == 2:
+        case['n_models'] = rng.choice([2, 2, 2, 3])
     if force:
         case.update(force)
+    case['attach'] = rng.choice(['ctor', 'list', 'list', 'each'])
+    case['late'] = []
+    if case['n_models'] >= 2 and rng.random() < 0.2:
+        case['late'] = [case['n_models'] - 1]
     n = rng.choice([2, 3, 3, 4] if big else [2, 2, 3])
+    early = case['n_models'] - len(case['late'])
     for tag in range(n):
-        case['triggers'].append([rng.randrange(case['n_models']), rng.choice(['go', 'go', 'go', 'stay'])])
+        case['triggers'].append([rng.randrange(early), rng.choice(['go', 'go', 'go', 'stay'])])
         if case['queued'] == 0 and rng.random() < 0.12:
             case['protected'].append(tag)
     next_tag = [n]
     for tag in range(n):
         gen_event_script(rng, case, tag, 0, next_tag)
+    for lm in case['late']:
+        # a plain callback of event 0 attaches the model, the stage's last callback then awaits a trigger on it
+        slot = rng.choice([x for x in asyncctl.TRANSITION_SLOTS if x != 'conditions'])
+        key = '0:%s:2' % slot
+        if any(op[0] in ('trig', 'raise') for op in case['script'].get(key, [])):
+            case['late'] = []
+            break
+        case['script'].setdefault('0:%s:0' % slot, []).insert(0, ['add', lm])
+        case['script'].pop('0:%s:1' % slot, None)
+        nt = next_tag[0]
+        next_tag[0] += 1
+        case['script'].setdefault(key, []).append(['trig', lm, 'go', nt])
+        gen_event_script(rng, case, nt, 1, next_tag, late_ok=True)
     return case
 
 
@@ -132,6 +152,7 @@ def note_stats(st, case, run):
         dd[k] = dd.get(k, 0) + 1
     inc('queued', str(case['queued']))
     inc('machine', 'hsm' if case['hsm'] else 'flat')
+    inc('attach', case.get('attach', 'ctor') + ('+late' if case.get('late') else ''))
     inc('top_level_triggers', str(len(case['triggers'])))
     inc('quiescence_points', str(min(run.nquiet, 8)))
     inc('cancelled_tasks', str(min(sum(1 for it in run.log if it[0] == 'cancel'), 4)))
@@ -288,7 +309,9 @@ class C08(runner.Check):
             'HierarchicalAsyncMachine, queued False/True/"model", optional on_exception, protected tasks, callbacks in every '
             'slot registered as plain function / coroutine / coroutine suspending on harness futures (0-2 suspension points '
             'per event), raising callbacks, failing conditions, triggers awaited from callbacks (nested up to depth 2), '
-            'remove_model; for each program ALL release orders are enumerated (DFS over the pending futures at every '
+            'remove_model; models attached through the constructor list / ONE add_model([..]) call / one add_model call per model / '
+            'add_model from a callback during the run (then triggered from that callback); queued="model" programs always have '
+            '2-3 models and a higher share of raising events; for each program ALL release orders are enumerated (DFS over the pending futures at every '
             'quiescence; capped per program, the cap and the number of completely enumerated programs are in '
             'distribution.programs); a case = program + release order; non-trivial = a task was actually cancelled, or a '
             'queued trigger arrived while another event of the machine was being processed; distinct = different JSON of '
